@@ -185,8 +185,49 @@ def const_eval(e: ast.expr | None, mod: ast.Module | None, depth: int = 0):
             sub = ev(e.args[0])
             if isinstance(sub, tuple) and sub and sub[0] == "dict":
                 return ("dict", list(sub[1]))
+            if isinstance(sub, tuple) and sub and sub[0] == _ORDERED_SET:
+                sub = sub[1]
+            if isinstance(sub, list) and all(isinstance(p, list) and len(p) == 2 for p in sub):
+                res: list = []                       # dict(pairs): Python's update semantics
+                for k, v in sub:
+                    for i, (k0, _) in enumerate(res):
+                        if k0 == k:
+                            res[i] = (k, v)
+                            break
+                    else:
+                        res.append((k, v))
+                return ("dict", res)
             raise _NotConst()
         raise _NotConst()
+    if (isinstance(e, ast.DictComp) and len(e.generators) == 1 and not e.generators[0].ifs
+            and not e.generators[0].is_async and isinstance(e.generators[0].target, ast.Tuple)
+            and len(e.generators[0].target.elts) == 2
+            and all(isinstance(t, ast.Name) for t in e.generators[0].target.elts)
+            and isinstance(e.key, ast.Name) and isinstance(e.value, ast.Name)):
+        # {k: v for k, v in PAIRS}  (or {v: k ...}) over a constant sequence of pairs / dict.items()
+        a, b = (t.id for t in e.generators[0].target.elts)
+        it = e.generators[0].iter
+        if (isinstance(it, ast.Call) and isinstance(it.func, ast.Attribute) and it.func.attr == "items"
+                and not it.args and not it.keywords):
+            src = ev(it.func.value)
+            pairs = [list(p) for p in src[1]] if isinstance(src, tuple) and src and src[0] == "dict" else None
+        else:
+            src = ev(it)
+            if isinstance(src, tuple) and src and src[0] == _ORDERED_SET:
+                src = src[1]
+            pairs = src if isinstance(src, list) and all(isinstance(p, list) and len(p) == 2 for p in src) else None
+        if pairs is None or {e.key.id, e.value.id} != {a, b} or a == b:
+            raise _NotConst()
+        res2: list = []
+        for x, y in pairs:
+            k, v = (x, y) if e.key.id == a else (y, x)
+            for i, (k0, _) in enumerate(res2):
+                if k0 == k:
+                    res2[i] = (k, v)
+                    break
+            else:
+                res2.append((k, v))
+        return ("dict", res2)
     if isinstance(e, ast.BinOp) and isinstance(e.op, ast.BitOr):
         a, b = ev(e.left), ev(e.right)
         if isinstance(a, tuple) and isinstance(b, tuple) and a and b and a[0] == b[0] == _ORDERED_SET:
@@ -222,7 +263,9 @@ def str_set(e: ast.expr | None, what: str, mod: ast.Module | None = None) -> lis
     if isinstance(v, tuple) and v and v[0] == _ORDERED_SET:
         v = v[1]
     if isinstance(v, list) and all(isinstance(x, str) for x in v):
-        return list(v)
+        # these collections are used for membership only: print them in a canonical order
+        # (sorted, duplicates removed), so that the way the source assembles them does not matter
+        return sorted(set(v))
     unrec(f"{what}: not a constant collection of strings")
     return None
 
